@@ -22,7 +22,7 @@ use linfa::{DatasetBase, ParamGuard};
 use linfa_bayes::{GaussianNb, GaussianNbParams, MultinomialNb, MultinomialNbParams};
 use linfa_clustering::{IncrKMeansError, KMeans, KMeansInit};
 use linfa_ftrl::{Ftrl, FtrlParams};
-use linfa_nn::distance::{Distance, L1Dist, L2Dist};
+use linfa_nn::distance::{Distance, L1Dist, L2Dist, LInfDist, LpDist};
 use lvmc_core::{guarded, json, Value, Violation};
 use ndarray::{s, Array1, Array2, ArrayView2, ShapeBuilder};
 use rand_xoshiro::rand_core::SeedableRng;
@@ -53,9 +53,88 @@ pub struct HCase {
     #[serde(default)]
     pub init: Vec<Vec<f64>>,
     pub queries: Vec<Vec<f64>>,
+    /// core-routing families: the calling form of fit_with for every batch (see FORM_NAMES)
+    #[serde(default, skip_serializing_if = "Vec::is_empty")]
+    pub forms: Vec<usize>,
 }
 
-pub const LAYOUT_NAMES: [&str; 5] = ["standard", "column_major_owned", "transposed_view", "reversed_rows_view", "every_second_row_view"];
+pub const NFORMS: usize = 7;
+pub const FORM_NAMES: [&str; NFORMS] = [
+    "view records + owned 1-d targets, checked params",
+    "reversed-row records view + reversed 1-d target view",
+    "every-second-row records view + every-second-element target view (poison fillers)",
+    "owned dataset with a strided (n,1) 2-d target column, into_single_target()",
+    "reversed-feature-axis records view + reversed target view of encoded labels, map_targets() decodes",
+    "owned dataset with extra rows of a foreign label, with_labels() filters them (CountedTargets)",
+    "column-major owned dataset, UNCHECKED params (ParamGuard blanket impl)",
+];
+
+/// Every calling form of `predict` on the same standard-layout query matrix, each converted to a
+/// Vec<f64>: (form name, values). For a one-row form the per-row results are concatenated.
+macro_rules! predict_forms {
+    ($m:expr, $q:expr, $conv:expr, $old:expr) => {{
+        use linfa::traits::PredictInplace;
+        let m = $m;
+        let q = $q;
+        let conv = $conv;
+        let mut forms: Vec<(&'static str, Vec<f64>)> = Vec::new();
+        forms.push(("predict(&Array2)", m.predict(q).iter().map(&conv).collect()));
+        forms.push(("predict(ArrayView2)", m.predict(q.view()).targets.iter().map(&conv).collect()));
+        forms.push(("predict(Array2)", m.predict(q.clone()).targets.iter().map(&conv).collect()));
+        let ds = DatasetBase::new(q.clone(), $old);
+        forms.push(("predict(&DatasetBase)", m.predict(&ds).iter().map(&conv).collect()));
+        let back = m.predict(ds);
+        if back.records != *q {
+            forms.push(("predict(DatasetBase) returned other records", vec![f64::NAN]));
+        }
+        forms.push(("predict(DatasetBase)", back.targets.iter().map(&conv).collect()));
+        let mut y = m.default_target(q);
+        m.predict_inplace(q, &mut y);
+        forms.push(("predict_inplace", y.iter().map(&conv).collect()));
+        let mut rows = Vec::new();
+        for i in 0..q.nrows() {
+            let one = q.slice(s![i..i + 1, ..]);
+            let r = m.predict(&one);
+            if r.len() != 1 {
+                rows.push(f64::NAN);
+            }
+            rows.extend(r.iter().map(&conv));
+        }
+        forms.push(("predict(&one-row view) row by row", rows));
+        let mut rows = Vec::new();
+        for i in 0..q.nrows() {
+            let one = DatasetBase::new(q.slice(s![i..i + 1, ..]).to_owned(), $old.slice(s![0..1]).to_owned());
+            rows.extend(m.predict(one).targets.iter().map(&conv));
+        }
+        forms.push(("predict(owned one-row DatasetBase) row by row", rows));
+        forms
+    }};
+}
+
+fn check_forms(tag: &str, forms: Result<Vec<(&'static str, Vec<f64>)>, String>, c: &HCase, out: &mut Out) {
+    match forms {
+        Err(e) => out.viols.push(Violation::new(format!("{}.predict.calling_form_dependence", tag), format!("a calling form of predict panicked: {}", e), case_json(c, json!({"op": "predict_forms"})))),
+        Ok(f) => {
+            for (name, v) in f.iter().skip(1) {
+                out.evals += 1;
+                out.nontrivial += 1;
+                let same = v.len() == f[0].1.len() && v.iter().zip(&f[0].1).all(|(a, b)| a.to_bits() == b.to_bits());
+                if !same {
+                    out.viols.push(Violation::new(
+                        format!("{}.predict.calling_form_dependence", tag),
+                        format!("{} gives {:?}, {} gives {:?} on the same model and query matrix", name, v, f[0].0, f[0].1),
+                        case_json(c, json!({"op": "predict_forms", "form": name})),
+                    ));
+                    return;
+                }
+            }
+            out.bump("harden_predict_calling_forms_compared", f.len() as u64 - 1);
+        }
+    }
+}
+
+pub const NLAY: usize = 6;
+pub const LAYOUT_NAMES: [&str; NLAY] = ["standard", "column_major_owned", "transposed_view", "reversed_rows_view", "every_second_row_view", "reversed_feature_axis_view"];
 
 pub trait Fl: linfa::Float + serde::Serialize {
     const F32: bool;
@@ -92,6 +171,7 @@ impl<F: Fl> Laid<F> {
             2 => Array2::from_shape_fn((p, n), |(j, i)| g(i, j)),
             3 => Array2::from_shape_fn((n, p), |(i, j)| g(n - 1 - i, j)),
             4 => Array2::from_shape_fn((2 * n, p), |(i, j)| if i % 2 == 0 { g(i / 2, j) } else { F::nan() }),
+            5 => Array2::from_shape_fn((n, p), |(i, j)| g(i, p - 1 - j)),
             _ => panic!("unknown layout"),
         };
         Laid { backing, kind }
@@ -101,6 +181,7 @@ impl<F: Fl> Laid<F> {
             0 | 1 => self.backing.view(),
             2 => self.backing.t(),
             3 => self.backing.slice(s![..;-1, ..]),
+            5 => self.backing.slice(s![.., ..;-1]),
             _ => self.backing.slice(s![..;2, ..]),
         }
     }
@@ -145,6 +226,13 @@ pub fn run_h(c: &HCase, out: &mut Out) {
         ("kmeans", "f32", "L2") => run_km_h::<f32, _>(c, L2Dist, Metric::L2, out),
         ("kmeans", "f64", "L1") => run_km_h::<f64, _>(c, L1Dist, Metric::L1, out),
         ("kmeans", "f32", "L1") => run_km_h::<f32, _>(c, L1Dist, Metric::L1, out),
+        ("kmeans", "f64", "Linf") => run_km_h::<f64, _>(c, LInfDist, Metric::LInf, out),
+        ("kmeans", "f32", "Linf") => run_km_h::<f32, _>(c, LInfDist, Metric::LInf, out),
+        ("kmeans", "f64", "Lp3") => run_km_h::<f64, _>(c, LpDist(3.0f64), Metric::Lp(3.0), out),
+        ("kmeans", "f32", "Lp3") => run_km_h::<f32, _>(c, LpDist(3.0f32), Metric::Lp(3.0), out),
+        ("core_nb", _, "gaussian") => core_nb_gaussian(c, out),
+        ("core_nb", _, "multinomial") => core_nb_multinomial(c, out),
+        ("core_ftrl", _, _) => core_ftrl(c, out),
         ("ftrl", "f64", _) => run_ftrl_h::<f64>(c, out),
         ("ftrl", "f32", _) => run_ftrl_h::<f32>(c, out),
         ("builder", _, "kmeans") => builder_kmeans(c, out),
@@ -162,6 +250,7 @@ trait NbM<F: Fl>: Clone + serde::Serialize {
     const GAUSSIAN: bool;
     fn step(prev: Option<Self>, smoothing: f64, x: ArrayView2<F>, y: &[usize]) -> Result<Self, String>;
     fn pred(&self, q: ArrayView2<F>) -> Result<Vec<usize>, String>;
+    fn pred_forms(&self, q: &Array2<F>) -> Result<Vec<(&'static str, Vec<f64>)>, String>;
 }
 
 impl<F: Fl> NbM<F> for GaussianNb<F, usize> {
@@ -179,6 +268,9 @@ impl<F: Fl> NbM<F> for GaussianNb<F, usize> {
     fn pred(&self, q: ArrayView2<F>) -> Result<Vec<usize>, String> {
         guarded(|| self.predict(&q).to_vec())
     }
+    fn pred_forms(&self, q: &Array2<F>) -> Result<Vec<(&'static str, Vec<f64>)>, String> {
+        guarded(|| predict_forms!(self, q, |v: &usize| *v as f64, Array1::<usize>::zeros(q.nrows())))
+    }
 }
 
 impl<F: Fl> NbM<F> for MultinomialNb<F, usize> {
@@ -195,6 +287,9 @@ impl<F: Fl> NbM<F> for MultinomialNb<F, usize> {
     }
     fn pred(&self, q: ArrayView2<F>) -> Result<Vec<usize>, String> {
         guarded(|| self.predict(&q).to_vec())
+    }
+    fn pred_forms(&self, q: &Array2<F>) -> Result<Vec<(&'static str, Vec<f64>)>, String> {
+        guarded(|| predict_forms!(self, q, |v: &usize| *v as f64, Array1::<usize>::zeros(q.nrows())))
     }
 }
 
@@ -331,7 +426,7 @@ fn run_nb_h<F: Fl, M: NbM<F>>(c: &HCase, out: &mut Out) {
         })
         .collect();
     let mut preds: Vec<Vec<usize>> = Vec::new();
-    for k in 0..5 {
+    for k in 0..NLAY {
         let lq = Laid::<F>::new(&qs, k);
         out.evals += 1;
         out.nontrivial += 1;
@@ -360,7 +455,7 @@ fn run_nb_h<F: Fl, M: NbM<F>>(c: &HCase, out: &mut Out) {
             ));
             return;
         }
-        for k in 1..5 {
+        for k in 1..NLAY {
             if preds[k][i] != preds[0][i] {
                 out.viols.push(Violation::new(
                     format!("{}.predict.layout_dependence", tag),
@@ -371,7 +466,10 @@ fn run_nb_h<F: Fl, M: NbM<F>>(c: &HCase, out: &mut Out) {
             }
         }
     }
-    out.bump("harden_predict_layout_comparisons", 4 * clear.len() as u64);
+    out.bump("harden_predict_layout_comparisons", (NLAY as u64 - 1) * clear.len() as u64);
+    let q0 = Laid::<F>::new(&qs, 0).backing;
+    let forms = fin.pred_forms(&q0);
+    check_forms(tag, forms, c, out);
 }
 
 // ------------------------------------------------------------------------------------------------
@@ -516,7 +614,7 @@ fn run_km_h<F: Fl, D: Distance<F> + std::fmt::Debug + 'static>(c: &HCase, dist: 
     let fin = if nonstd { lay.unwrap() } else { std.unwrap() };
     let qs: Vec<Vec<f64>> = c.queries.iter().map(|r| r.iter().map(|v| round_f::<F>(*v)).collect()).collect();
     let mut preds: Vec<Vec<usize>> = Vec::new();
-    for kq in 0..5 {
+    for kq in 0..NLAY {
         let lq = Laid::<F>::new(&qs, kq);
         out.evals += 1;
         out.nontrivial += 1;
@@ -538,7 +636,7 @@ fn run_km_h<F: Fl, D: Distance<F> + std::fmt::Debug + 'static>(c: &HCase, dist: 
             out.indeterminate += 1;
             continue;
         }
-        for kq in 0..5 {
+        for kq in 0..NLAY {
             if preds[kq][i] != d[0].1 {
                 out.viols.push(Violation::new(
                     if kq == 0 { "kmeans.predict.not_nearest_centroid".to_string() } else { "kmeans.predict.layout_dependence".to_string() },
@@ -549,7 +647,16 @@ fn run_km_h<F: Fl, D: Distance<F> + std::fmt::Debug + 'static>(c: &HCase, dist: 
             }
         }
     }
-    out.bump("harden_predict_layout_comparisons", 4 * qs.len() as u64);
+    out.bump("harden_predict_layout_comparisons", (NLAY as u64 - 1) * qs.len() as u64);
+    let q0 = Laid::<F>::new(&qs, 0).backing;
+    let forms = guarded(|| {
+        let mut f = predict_forms!(&fin, &q0, |v: &usize| *v as f64, Array1::<usize>::zeros(q0.nrows()));
+        // the one-observation form: predict(&ArrayView1) -> usize
+        let single: Vec<f64> = (0..q0.nrows()).map(|i| fin.predict(&q0.row(i)) as f64).collect();
+        f.push(("predict(&ArrayView1) observation by observation", single));
+        f
+    });
+    check_forms("kmeans", forms, c, out);
 }
 
 // ------------------------------------------------------------------------------------------------
@@ -646,7 +753,7 @@ fn run_ftrl_h<F: Fl>(c: &HCase, out: &mut Out) {
     let fin = if nonstd { lay.unwrap() } else { std.unwrap() };
     let qs: Vec<Vec<f64>> = c.queries.iter().map(|r| r.iter().map(|v| round_f::<F>(*v)).collect()).collect();
     let mut preds: Vec<Vec<f64>> = Vec::new();
-    for kq in 0..5 {
+    for kq in 0..NLAY {
         let lq = Laid::<F>::new(&qs, kq);
         out.evals += 1;
         out.nontrivial += 1;
@@ -669,7 +776,7 @@ fn run_ftrl_h<F: Fl>(c: &HCase, out: &mut Out) {
         }
         let t: f64 = q.iter().zip(&w).map(|(a, b)| a * b).sum::<f64>().min(35.0).max(-35.0);
         let want = 1.0 / (1.0 + (-t).exp());
-        for kq in 0..5 {
+        for kq in 0..NLAY {
             if !((preds[kq][i] - want).abs() <= ptol) {
                 out.viols.push(Violation::new(
                     if kq == 0 { "ftrl.predict.not_sigmoid_of_weights".to_string() } else { "ftrl.predict.layout_dependence".to_string() },
@@ -680,7 +787,10 @@ fn run_ftrl_h<F: Fl>(c: &HCase, out: &mut Out) {
             }
         }
     }
-    out.bump("harden_predict_layout_comparisons", 4 * qs.len() as u64);
+    out.bump("harden_predict_layout_comparisons", (NLAY as u64 - 1) * qs.len() as u64);
+    let q0 = Laid::<F>::new(&qs, 0).backing;
+    let forms = guarded(|| predict_forms!(&fin, &q0, |p: &Pr| **p as f64, Array1::<bool>::from_elem(q0.nrows(), false)));
+    check_forms("ftrl", forms, c, out);
 }
 
 // ------------------------------------------------------------------------------------------------
@@ -892,5 +1002,283 @@ fn builder_nb(c: &HCase, out: &mut Out) {
             ));
             return;
         }
+    }
+}
+
+// ------------------------------------------------------------------------------------------------
+// core-crate routing: calling forms of fit / fit_with, target layouts, dataset helpers
+// ------------------------------------------------------------------------------------------------
+
+/// Builds the dataset of one batch in the given calling form and evaluates `$body` with `$ds`
+/// bound to a reference to it and `$unchecked` to "use the unchecked params".
+/// `$poison`: filler label; `$enc` / `$dec`: stored encoding of the labels for the map_targets form;
+/// `$extra`: Some(label) adds foreign rows that with_labels has to filter out; `$keep`: the
+/// label list handed to with_labels.
+macro_rules! with_form {
+    ($form:expr, $bx:expr, $by:expr, $poison:expr, $enc:expr, $dec:expr, $extra:expr, $keep:expr, $ds:ident, $unchecked:ident => $body:expr) => {{
+        let bx: &Vec<Vec<f64>> = $bx;
+        let by = $by;
+        let n = bx.len();
+        let p = bx[0].len();
+        match $form {
+            0 => {
+                let l = Laid::<f64>::new(bx, 0);
+                let d = DatasetBase::new(l.view(), Array1::from_vec(by.clone()));
+                let $ds = &d;
+                let $unchecked = false;
+                $body
+            }
+            1 => {
+                let l = Laid::<f64>::new(bx, 3);
+                let t = Array1::from_shape_fn(n, |i| by[n - 1 - i].clone());
+                let d = DatasetBase::new(l.view(), t.slice(s![..;-1]));
+                let $ds = &d;
+                let $unchecked = false;
+                $body
+            }
+            2 => {
+                let l = Laid::<f64>::new(bx, 4);
+                let t = Array1::from_shape_fn(2 * n, |i| if i % 2 == 0 { by[i / 2].clone() } else { $poison(&by[i / 2]) });
+                let d = DatasetBase::new(l.view(), t.slice(s![..;2]));
+                let $ds = &d;
+                let $unchecked = false;
+                $body
+            }
+            3 => {
+                let rec = Laid::<f64>::new(bx, 0).backing;
+                let t2 = Array2::from_shape_fn((n, 2), |(i, j)| if j == 1 { by[i].clone() } else { $poison(&by[i]) });
+                let d = linfa::Dataset::new(rec, t2.slice_move(s![.., 1..2])).into_single_target();
+                let $ds = &d;
+                let $unchecked = false;
+                $body
+            }
+            4 => {
+                let l = Laid::<f64>::new(bx, 5);
+                let t = Array1::from_shape_fn(n, |i| $enc(&by[n - 1 - i]));
+                let d = DatasetBase::new(l.view(), t.slice(s![..;-1])).map_targets($dec);
+                let $ds = &d;
+                let $unchecked = false;
+                $body
+            }
+            5 => {
+                let mut rows: Vec<Vec<f64>> = Vec::new();
+                let mut labs = Vec::new();
+                for i in 0..n {
+                    rows.push(bx[i].clone());
+                    labs.push(by[i].clone());
+                    if let Some(e) = $extra {
+                        if i % 2 == 1 || n == 1 {
+                            rows.push(vec![77.0; p]);
+                            labs.push(e);
+                        }
+                    }
+                }
+                let rec = Laid::<f64>::new(&rows, 0).backing;
+                let full = DatasetBase::new(rec, Array1::from_vec(labs));
+                let d = full.with_labels($keep);
+                let $ds = &d;
+                let $unchecked = false;
+                $body
+            }
+            _ => {
+                let rec = Laid::<f64>::new(bx, 1).backing;
+                let d = DatasetBase::new(rec, Array1::from_vec(by.clone()));
+                let $ds = &d;
+                let $unchecked = true;
+                $body
+            }
+        }
+    }};
+}
+
+macro_rules! core_nb_runner {
+    ($fname:ident, $Params:ident, $Model:ident, $setter:ident, $gaussian:expr, $tag:expr) => {
+        fn $fname(c: &HCase, out: &mut Out) {
+            use linfa::dataset::{AsSingleTargets, Labels};
+            use linfa::traits::Fit;
+            use ndarray::{ArrayBase, Data, Ix2};
+            type M = $Model<f64, usize>;
+            fn fitw<D: Data<Elem = f64>, T: AsSingleTargets<Elem = usize> + Labels<Elem = usize>>(prev: Option<M>, s: f64, ds: &DatasetBase<ArrayBase<D, Ix2>, T>, unchecked: bool) -> Result<M, String> {
+                let p = $Params::<f64, usize>::new().$setter(s);
+                let r = if unchecked {
+                    guarded(|| p.fit_with(prev, ds).map_err(|e| e.to_string()))
+                } else {
+                    let v = p.check().map_err(|e| e.to_string())?;
+                    guarded(|| v.fit_with(prev, ds).map_err(|e| e.to_string()))
+                };
+                match r {
+                    Ok(Ok(Some(m))) => Ok(m),
+                    Ok(Ok(None)) => Err("Ok(None)".into()),
+                    Ok(Err(e)) => Err(format!("Err({})", e)),
+                    Err(p) => Err(format!("panic: {}", p)),
+                }
+            }
+            fn fit1<D: Data<Elem = f64>, T: AsSingleTargets<Elem = usize> + Labels<Elem = usize>>(s: f64, ds: &DatasetBase<ArrayBase<D, Ix2>, T>, unchecked: bool) -> Result<M, String> {
+                let p = $Params::<f64, usize>::new().$setter(s);
+                let r = if unchecked {
+                    guarded(|| p.fit(ds).map_err(|e| e.to_string()))
+                } else {
+                    let v = p.check().map_err(|e| e.to_string())?;
+                    guarded(|| v.fit(ds).map_err(|e| e.to_string()))
+                };
+                match r {
+                    Ok(Ok(m)) => Ok(m),
+                    Ok(Err(e)) => Err(format!("Err({})", e)),
+                    Err(p) => Err(format!("panic: {}", p)),
+                }
+            }
+            fn step(prev: Option<M>, s: f64, bx: &Vec<Vec<f64>>, by: &Vec<usize>, form: usize) -> Result<M, String> {
+                let mut keep: Vec<usize> = by.clone();
+                keep.sort();
+                keep.dedup();
+                with_form!(form, bx, by, |_l: &usize| 99usize, |l: &usize| *l + 100, |l: &usize| *l - 100, Some(7usize), &keep, ds, unchecked => fitw(prev, s, ds, unchecked))
+            }
+            fn single(s: f64, bx: &Vec<Vec<f64>>, by: &Vec<usize>, form: usize) -> Result<M, String> {
+                let mut keep: Vec<usize> = by.clone();
+                keep.sort();
+                keep.dedup();
+                with_form!(form, bx, by, |_l: &usize| 99usize, |l: &usize| *l + 100, |l: &usize| *l - 100, Some(7usize), &keep, ds, unchecked => fit1(s, ds, unchecked))
+            }
+            let gaussian: bool = $gaussian;
+            let tag: &str = $tag;
+            let sm = c.hyper[0];
+            let all_std = c.forms.iter().all(|f| *f == 0);
+            let mut std: Option<M> = None;
+            let mut lay: Option<M> = None;
+            let mut cx: Vec<Vec<f64>> = Vec::new();
+            let mut cy: Vec<usize> = Vec::new();
+            let mut max_batch_var = 0.0f64;
+            let stats = |m: &M| crate::nb::stats_from_image(&serde_json::to_value(m).unwrap_or(Value::Null), gaussian).unwrap_or_default();
+            for i in 0..c.batches.len() {
+                let (bx, by) = expand(c, i);
+                out.evals += 1;
+                out.transitions += 1;
+                if i > 0 {
+                    out.nontrivial += 1;
+                }
+                std = match step(std.take(), sm, &bx, &by, 0) {
+                    Ok(m) => Some(m),
+                    Err(e) => {
+                        out.viols.push(Violation::new(format!("{}.fit_with.unexpected_failure", tag), format!("batch {}: {}", i, e), case_json(c, json!({"op": "fit_with", "batch": i}))));
+                        return;
+                    }
+                };
+                max_batch_var = max_batch_var.max(crate::nb::pop_var_max(&bx));
+                cx.extend(bx.iter().cloned());
+                cy.extend(by.iter().cloned());
+                let s_std = stats(std.as_ref().unwrap());
+                if all_std {
+                    let tb = crate::nb::textbook(gaussian, &cx, &cy, sm);
+                    let extra = if gaussian { sm * max_batch_var.max(tb.maxvar) * (1.0 + 1e-9) } else { 0.0 };
+                    if let Some(d) = stats_diff(&s_std, &tb.stats, 1e-9, 1e-12, extra, !gaussian) {
+                        out.viols.push(Violation::new(format!("{}.fit_with.not_textbook_f64", tag), format!("after batch {}: {}", i, d), case_json(c, json!({"op": "fit_with", "batch": i}))));
+                        return;
+                    }
+                } else {
+                    lay = match step(lay.take(), sm, &bx, &by, c.forms[i]) {
+                        Ok(m) => Some(m),
+                        Err(e) => {
+                            out.viols.push(Violation::new(
+                                format!("{}.fit_with.calling_form_dependence", tag),
+                                format!("batch {} as [{}]: fit_with fails ({}) although the plain form is accepted", i, FORM_NAMES[c.forms[i]], e),
+                                case_json(c, json!({"op": "fit_with", "batch": i})),
+                            ));
+                            return;
+                        }
+                    };
+                    let s_lay = stats(lay.as_ref().unwrap());
+                    if let Some(d) = stats_diff(&s_lay, &s_std, 1e-9, 1e-12, 0.0, !gaussian) {
+                        out.viols.push(Violation::new(
+                            format!("{}.fit_with.calling_form_dependence", tag),
+                            format!("forms {:?}: after batch {} the model differs from the plain-form replay: {}", c.forms.iter().map(|f| FORM_NAMES[*f]).collect::<Vec<_>>(), i, d),
+                            case_json(c, json!({"op": "fit_with", "batch": i})),
+                        ));
+                        return;
+                    }
+                    out.bump("harden_calling_form_steps_compared", 1);
+                }
+            }
+            // a single batch is also fed through Fit::fit in the same form
+            if c.batches.len() == 1 {
+                let (bx, by) = expand(c, 0);
+                out.evals += 1;
+                match single(sm, &bx, &by, c.forms[0]) {
+                    Ok(m) => {
+                        if let Some(d) = stats_diff(&stats(&m), &stats(std.as_ref().unwrap()), 1e-9, 1e-12, 0.0, !gaussian) {
+                            out.viols.push(Violation::new(
+                                format!("{}.fit.calling_form_dependence", tag),
+                                format!("fit as [{}] differs from fit_with(None) in the plain form: {}", FORM_NAMES[c.forms[0]], d),
+                                case_json(c, json!({"op": "fit"})),
+                            ));
+                        }
+                    }
+                    Err(e) => out.viols.push(Violation::new(format!("{}.fit.calling_form_dependence", tag), format!("fit as [{}] fails: {}", FORM_NAMES[c.forms[0]], e), case_json(c, json!({"op": "fit"})))),
+                }
+            }
+        }
+    };
+}
+
+core_nb_runner!(core_nb_gaussian, GaussianNbParams, GaussianNb, var_smoothing, true, "gaussian_nb");
+core_nb_runner!(core_nb_multinomial, MultinomialNbParams, MultinomialNb, alpha, false, "multinomial_nb");
+
+fn core_ftrl(c: &HCase, out: &mut Out) {
+    use linfa::dataset::AsSingleTargets;
+    use ndarray::{ArrayBase, Data, Ix2};
+    type M = Ftrl<f64>;
+    let hy = c.hyper.clone();
+    fn go<D: Data<Elem = f64>, T: AsSingleTargets<Elem = bool>>(prev: Option<M>, hy: &[f64], ds: &DatasetBase<ArrayBase<D, Ix2>, T>, unchecked: bool) -> Result<M, String> {
+        let p = FtrlParams::new(hy[0], hy[1], hy[2], hy[3], Xoshiro256Plus::seed_from_u64(42));
+        let r = if unchecked {
+            guarded(|| p.fit_with(prev, ds).map_err(|e| e.to_string()))
+        } else {
+            let v = p.check().map_err(|e| e.to_string())?;
+            guarded(|| v.fit_with(prev, ds).map_err(|e| e.to_string()))
+        };
+        match r {
+            Ok(Ok(m)) => Ok(m),
+            Ok(Err(e)) => Err(format!("Err({})", e)),
+            Err(p) => Err(format!("panic: {}", p)),
+        }
+    }
+    fn step(prev: Option<M>, hy: &[f64], bx: &Vec<Vec<f64>>, by: &Vec<bool>, form: usize) -> Result<M, String> {
+        let keep = [false, true];
+        with_form!(form, bx, by, |l: &bool| !*l, |l: &bool| if *l { 9usize } else { 2usize }, |x: &usize| *x > 6, None::<bool>, &keep, ds, unchecked => go(prev, hy, ds, unchecked))
+    }
+    let mut std: Option<M> = None;
+    let mut lay: Option<M> = None;
+    for i in 0..c.batches.len() {
+        let (bx, by) = expand(c, i);
+        let yb: Vec<bool> = by.iter().map(|v| *v == 1).collect();
+        out.evals += 1;
+        out.transitions += 1;
+        if i > 0 {
+            out.nontrivial += 1;
+        }
+        std = match step(std.take(), &hy, &bx, &yb, 0) {
+            Ok(m) => Some(m),
+            Err(e) => {
+                out.viols.push(Violation::new("ftrl.fit_with.unexpected_failure", format!("batch {}: {}", i, e), case_json(c, json!({"op": "fit_with", "batch": i}))));
+                return;
+            }
+        };
+        lay = match step(lay.take(), &hy, &bx, &yb, c.forms[i]) {
+            Ok(m) => Some(m),
+            Err(e) => {
+                out.viols.push(Violation::new("ftrl.fit_with.calling_form_dependence", format!("batch {} as [{}]: fit_with fails ({})", i, FORM_NAMES[c.forms[i]], e), case_json(c, json!({"op": "fit_with", "batch": i}))));
+                return;
+            }
+        };
+        let (a, b) = (fstate(lay.as_ref().unwrap()), fstate(std.as_ref().unwrap()));
+        let ok = a.z.iter().zip(&b.z).all(|(x, y)| (x - y).abs() <= 1e-6 * (1.0 + y.abs())) && a.n.iter().zip(&b.n).all(|(x, y)| (x - y).abs() <= 1e-6 * (1.0 + y.abs()));
+        if !ok {
+            out.viols.push(Violation::new(
+                "ftrl.fit_with.calling_form_dependence",
+                format!("forms {:?}: after batch {} z = {:?}, n = {:?}; plain-form replay z = {:?}, n = {:?}", c.forms.iter().map(|f| FORM_NAMES[*f]).collect::<Vec<_>>(), i, a.z, a.n, b.z, b.n),
+                case_json(c, json!({"op": "fit_with", "batch": i})),
+            ));
+            return;
+        }
+        out.bump("harden_calling_form_steps_compared", 1);
     }
 }
